@@ -330,9 +330,17 @@ impl MainEvent {
             }
         }
 
-        for chunks in pwb_chunks_map.into_values() {
+        for ((chunks_board_id, _), chunks) in pwb_chunks_map {
             let packet = PwbPacket::try_from(chunks)?;
             let board_id = packet.board_id();
+            // The chunks were checked against the bank name. The packet they
+            // carry has to come from that same board.
+            if board_id != chunks_board_id {
+                return Err(TryMainEventFromDataBanksError::PadwingBoardIdMismatch {
+                    expected: chunks_board_id,
+                    found: board_id,
+                });
+            }
             let after_id = packet.after_id();
             for &channel_id in packet.channels_sent() {
                 if let padwing::ChannelId::Pad(pad_channel_id) = channel_id {
